@@ -17,6 +17,8 @@ import (
 type c02Case struct {
 	Values []resp.Value `json:"values"`
 	Sizes  []int        `json:"sizes"` // chunk sizes; the remainder is the last chunk
+	// EOFWithLast: the transport hands out the last bytes together with io.EOF instead of reporting EOF on a read of its own
+	EOFWithLast bool `json:"eof_with_last,omitempty"`
 }
 
 // evalC02 parses the stream through a chunking reader and checks values, exact
@@ -24,6 +26,7 @@ type c02Case struct {
 func evalC02(c c02Case) (fl *Failure) {
 	data, ends := resp.EncodeAll(c.Values)
 	r := resp.NewChunkReader(data, c.Sizes)
+	r.EOFWithData = c.EOFWithLast
 	r.Limit = 1000000 + 1000*len(data)
 	defer func() {
 		if rec := recover(); rec != nil {
@@ -148,7 +151,7 @@ func init() {
 
 func TestC02(t *testing.T) {
 	h := newHarness(t, "C02", "sequences of 1..8 value trees (as C01, bulks to 64KiB) concatenated and delivered through a chunking reader: every 2-way split point "+
-		"(all of them for streams <= 400 bytes, all length-prefix/CR-LF cuts plus 64 sampled otherwise), all-1-byte delivery, and random k-way partitions biased to length prefixes and CR|LF. "+
+		"(all of them for streams <= 400 bytes, all length-prefix/CR-LF cuts plus 64 sampled otherwise), all-1-byte delivery, and random k-way partitions biased to length prefixes and CR|LF; the end of stream is reported on a read of its own or (a third of the cases) together with the last bytes. "+
 		"Oracle: i-th Next() equals i-th value, bytes consumed after it equal the value's end offset exactly, then (nil,nil). "+
 		"Plus the same through the server's connection path: pipelined ECHO requests with payloads around 4 KiB / 8 KiB / 64 KiB boundaries in generated chunkings (single cut, fixed segments, random), every reply must be the payload sent. "+
 		"Non-trivial: >=2 values and a chunk boundary strictly inside the stream. Distinct = distinct (stream, partition).")
@@ -160,7 +163,10 @@ func TestC02(t *testing.T) {
 
 	run := func(rt *rapid.T, c c02Case, data []byte, extra string) {
 		nt, classes := c02Classes(data, c.Sizes, len(c.Values))
-		canon := append(append([]byte{}, data...), []byte(fmt.Sprint(c.Sizes))...)
+		canon := append(append([]byte{}, data...), []byte(fmt.Sprint(c.Sizes, c.EOFWithLast))...)
+		if c.EOFWithLast {
+			classes = append(classes, "eof-with-last-bytes")
+		}
 		h.Col.Case(nt, canon, append(classes, extra)...)
 		if h.Col.WantSample() {
 			vs := []string{}
@@ -203,10 +209,17 @@ func TestC02(t *testing.T) {
 				cuts = append(cuts, rapid.IntRange(1, len(data)-1).Draw(rt, "cut"))
 			}
 		}
+		c.EOFWithLast = rapid.IntRange(0, 2).Draw(rt, "eofwithlast") == 0
 		for _, cut := range cuts {
 			cc := c
 			cc.Sizes = []int{cut}
 			run(rt, cc, data, "two-way-split")
+		}
+		if !c.EOFWithLast {
+			// unsplit, the end of stream reported together with the last bytes
+			cc := c
+			cc.EOFWithLast = true
+			run(rt, cc, data, "eof-with-last-bytes")
 		}
 		if len(data) <= 20000 {
 			cc := c
@@ -279,6 +292,7 @@ func TestC02(t *testing.T) {
 		if len(c.Sizes) > 3000 {
 			c.Sizes = c.Sizes[:3000]
 		}
+		c.EOFWithLast = rapid.IntRange(0, 3).Draw(rt, "eofwithlast") == 0
 		run(rt, c, data, "k-way")
 	})
 }
